@@ -301,6 +301,8 @@ func c01plan(tier string, seed int64) []run.Job {
 		jobs = append(jobs, run.Job{Family: "random", Seed: seed*100000 + int64(i), N: per, P: map[string]int{"strat": 1, "maxlen": 8, "inputs": 6}})
 		jobs = append(jobs, run.Job{Family: "layered", Seed: seed*100000 + 80000 + int64(i), N: per / 2, P: map[string]int{"inputs": 6}})
 		jobs = append(jobs, run.Job{Family: "mutual", Seed: seed*100000 + 50000 + int64(i), N: per, P: map[string]int{"inputs": 6, "maxlen": 10}})
+		// hidden left recursion behind nullable prefixes of every result-list layout (zero-width alternative first / last / repeated)
+		jobs = append(jobs, run.Job{Family: "hidden", Seed: seed*100000 + 55000 + int64(i), N: per / 2, P: map[string]int{"inputs": 6, "maxlen": 9}})
 	}
 	nlong := 2
 	if tier == "thorough" {
